@@ -49,6 +49,7 @@ def reduced_alphabet():
                 ["spset", h, "a", 1], ["spset", h, "b", 0], ["spdel", h, "a"], ["clear", h], ["reset", h],
                 ["move", h, 1], ["update", h, {"a": 1}, False], ["update", h, {"a": 1}, True],
                 ["spassign", h, {"a": 1}]]
+    ops += [["badjob", "h1", {"a.b": 1}, "init"], ["badjob", "h2", {"a": 0, "n": {"b.c": 1}}, "dset"]]
     ops += [["copy", "h1", "h4"], ["deepcopy", "h1", "h4"], ["pickle", "h1", "h4"], ["clone", "h1", 1, "h4"],
             ["init", "h4"], ["spset", "h4", "b", 0], ["ucache", 0], ["session", 0],
             ["openid", "h5", 0, W.ref_id(sps[0])], ["openid", "h5", 0, W.ref_id(sps[1])[:2]]]
